@@ -225,6 +225,34 @@ TEXT = {
         "note": TB + "F14 is open and reproduced on every run. exactly-once and numbering are proved for two writers only (all schedules), not for n.",
         "technique": "Lean 4 proof (invariant over the step relation) + exhaustive kernel evaluation over schedules + schedule-controlled differential testing",
     },
+    "C20": {
+        "text": "The sandbox environment is modelled as a finite graph extracted on every run from a real LuaEnvironment (tables, Go "
+                "functions identified by implementation, Lua functions; edges = fields, object keys, metatables, function environments, "
+                "upvalues, constants). Proved in Lean for every finite graph: if the executable check safeB passes, every node reachable "
+                "from the script-visible roots is inert data, a table, an allow-listed library function or a registered API "
+                "(C20_safeB_sound), and every script, as an arbitrary finite sequence of the abstract actions follow-edge / call held "
+                "allow-listed function on held arguments / write / setfenv, only ever holds such values (C20_reach_closed, "
+                "C20_script_holds_only_safe; induction over the action sequence, writes only add edges inside the closure). For the graph "
+                "of the unchanged tree, committed as Gittuf/Model/SandboxSnapshot.lean, the check is discharged by kernel evaluation "
+                "(C20_closure_safe_snapshot, decide +kernel over 103 nodes / 125 edges; the graph also contains the registry's module "
+                "loaders, which the closure provably excludes). Also proved: a non-number result gives exit code 1 (C20_non_number_fails); "
+                "every hook run is a hook of the requested stage assigned to a principal owning the signer's key, an unknown signer runs "
+                "nothing (C20_hooks_run_assigned, C20_unknown_signer_runs_nothing); in the interpreter-loop abstraction a script is "
+                "stopped by deadline + D when no step exceeds D and every longer script is cut (C20_timeout_partial, "
+                "C20_long_script_is_stopped). The driver evaluates safeB on the run-time graph of every run, compares it with the snapshot "
+                "and with what a script can enumerate from inside the sandbox, and compares escape / write / return-value / "
+                "non-termination / hook-selection scripts run on the real code with the model.",
+        "note": TB + "Trusted additionally: the hand-written capability table (capOf) of the remaining gopher-lua functions. PARTIAL: the "
+                "write-protection statement TablesProtected is false for the code as it stands (C20_F30_witness; only writes of absent keys "
+                "are refused: C20_tables_protected_partial) and the unconditional timeout statement StoppedByDeadline is false "
+                "(C20_not_stopped_by_deadline): real time inside one Go library call and inside error construction is measured by the "
+                "harness, not modelled. Open findings F30 (module tables writable), F31 (base library / API globals replaceable), F32 "
+                "(pattern matching not interruptible), F33 (stack trace after tail calls). getfenv, setfenv, newproxy, _printregs, print "
+                "are reachable; they are on the allow-list with explicit capability summaries (environment read/write of reachable "
+                "tables only, fresh userdata, stdout).",
+        "technique": "Lean 4 proof (closure invariant over action sequences, kernel-evaluated closure of the extracted graph) + "
+                     "graph extraction and differential correspondence on generated scripts",
+    },
 }
 
 NOT_YET = {}
